@@ -80,5 +80,42 @@ def check(run):
         seqs.append([f"prep_verify {bytes(rng.getrandbits(8) for _ in range(288)).hex()} {rlngen.hx(sig)}"])
         seqs.append(["id_pair_de " + b"".join(le(v, 32) for v in vals[:2]).hex()])
         seqs.append(["id_tuple_de " + b"".join(le(v, 32) for v in vals[:4]).hex()])
-    run.rules.append("each codec in both directions against an encoder/decoder written from the documented layouts: field elements (boundary + random), vectors of length 0..n, usize lists with 2^32/2^63/2^64-1 entries, witnesses with path lengths 0..21 and boundary limits/ids, with missing / trailing bytes and inconsistent length prefixes, proof values, requests, identity tuples; distinct = distinct op line")
+    run.rules.append("each codec in both directions against an encoder/decoder written from the documented layouts: field elements (boundary + random), vectors of length 0..n, usize lists with 2^32/2^63/2^64-1 entries, witnesses with path lengths 0..21 and boundary limits/ids, with missing / trailing bytes and inconsistent length prefixes, proof values, requests, identity tuples (seeded and unseeded, RLN and FFI entry points, checked through the relations their fields satisfy in the documented order); distinct = distinct op line")
+    from lib import gen as _gen
+    def _wit_ok(line):
+        # stay inside this stream's domain: a witness line with more direction bytes than path elements makes
+        # proof_values_from_witness panic, which is C12's open finding, not a codec matter (see DESIGN §15)
+        w = line.split(" ")
+        if w[0] != "witness" or len(w) < 6:
+            return True
+        npath = 0 if w[4] == "-" else len(w[4].split(","))
+        nidx = 0 if w[5] == "-" else len(w[5]) // 2
+        return nidx <= npath
+    seqs = seqs + _gen.neighbours(seqs, run.rng, 60 if run.tier == "quick" else 600, valid=_wit_ok)      # purity across calls: L, near-duplicate of L, L again
     run.differential("codecs", seqs, shrink=False)
+    # ---- the documented identity layouts on EVERY entry point that writes one, also the unseeded ones (random output: the layout
+    #      is checked through the relations its fields must satisfy IN THE DOCUMENTED ORDER):
+    #      [ secret<32> | commitment<32> ] with commitment = H(secret); [ trapdoor | nullifier | secret | commitment ] with
+    #      secret = H(trapdoor, nullifier), commitment = H(secret)
+    from lib import rlngen as _rg
+    zkh = run.harness()
+    sd = bytes(range(7)).hex()
+    ops = ["rln key_gen", "ffi_key_gen", "rln ext_key_gen", "ffi_ext_key_gen", f"rln seeded_key_gen {sd}", f"ffi_seeded_key_gen {sd}",
+           f"rln seeded_ext_key_gen {sd}", f"ffi_seeded_ext_key_gen {sd}"] * (3 if run.tier == "quick" else 30)
+    outs = core.run_impl(zkh, ops)
+    want = []
+    for op, o in zip(ops, outs):
+        b = bytes.fromhex(o[3:]) if o.startswith("ok ") else b""
+        n = 4 if "ext" in op else 2
+        if len(b) != 32 * n:
+            run.violation({"property": run.pid, "kind": "impl-vs-spec", "stream": "identity-layout", "ops": [op], "detail": f"{len(b)} bytes where the documented layout has {32 * n}: {o[:80]}"})
+            continue
+        v = [int.from_bytes(b[32 * k:32 * k + 32], "little") for k in range(n)]
+        want += [([v[0]], v[1], op)] if n == 2 else [([v[0], v[1]], v[2], op), ([v[2]], v[3], op)]
+    hs = _rg.poseidon(zkh, [w[0] for w in want])
+    sp = [int(x, 16) for x in core.run_lean("spec", ["poseidon " + " ".join(hex(v) for v in w[0]) for w in want])]
+    for (inp, val, op), h, g in zip(want, hs, sp):
+        run.cov["evaluations"] += 1
+        if h != val or g != val:
+            run.violation({"property": run.pid, "kind": "impl-vs-spec", "stream": "identity-layout", "ops": [op],
+                           "detail": f"fields read in the documented order do not satisfy the identity relation: H({[hex(x) for x in inp]}) = {hex(g)}, the field holds {hex(val)}"})
